@@ -110,18 +110,19 @@ def run_ops(cfg, ops, seed, counters, ops2=None, virtual=False):
         return [{'key': 'write-raises:%s@%s' % (oc.exc_class, oc.exc_where), 'detail': oc.exc_msg}], None
     data = img if virtual else img.getvalue()
     vio, u = check_image(data, sess.model, counters)
-    if ops2 and not virtual:
+    if (ops2 and not virtual) or (virtual and ops2 is not None):
         s2, oc = sess.reopen(data)
         if not oc.ok:
             vio.append({'key': 'reopen-raises:%s@%s' % (oc.exc_class, oc.exc_where), 'detail': oc.exc_msg})
         else:
             for op in ops2:
                 s2.step(op)
-            img2, oc = s2.write()
+            img2, oc = s2.write(virtual=virtual, blocksize=(1 << 20) if virtual else None)
             if not oc.ok:
                 vio.append({'key': 'write-raises:%s@%s' % (oc.exc_class, oc.exc_where), 'detail': 'after reopen: %s' % oc.exc_msg})
             else:
-                v2, u = check_image(img2.getvalue(), s2.model, counters)
+                v2, u = check_image(img2 if virtual else img2.getvalue(), s2.model, counters)
+                counters['big_reopened_and_mastered'] = counters.get('big_reopened_and_mastered', 0) + int(virtual)
                 for v in v2:
                     v['detail'] = 'after reopen+edits: ' + v['detail']
                 vio += v2
@@ -146,6 +147,16 @@ def run_case(i, seed, tier):
         cfg = Cfg(level=3, udf=True)
         ops = [{'op': 'add_fp', 'cid': 4100 + i, 'length': 2 * 0x3ffff800 + 5000 + i, 'iso_path': '/BIG3.;1', 'udf_path': '/big3'},
                {'op': 'add_fp', 'cid': 4101 + i, 'length': 70000, 'iso_path': '/AFTER.;1', 'udf_path': '/after'}]
+        virtual = True
+    elif i % 200 == 57:
+        # just over what one allocation descriptor describes, under a UDF name only (or under both);
+        # the image is opened again and mastered again, with or without an edit in between
+        cfg = Cfg(level=3, udf=True)
+        big = {'op': 'add_fp', 'cid': 4200 + i, 'length': 0x3ffff800 + 5000 + i, 'udf_path': '/bigu'}
+        if (i // 200) % 2:
+            big['iso_path'] = '/BIGU.;1'
+        ops = [big, {'op': 'add_fp', 'cid': 4201 + i, 'length': 70000, 'iso_path': '/AFTER.;1', 'udf_path': '/after'}]
+        ops2 = [{'op': 'add_fp', 'cid': 4202 + i, 'length': 3000, 'iso_path': '/LATER.;1', 'udf_path': '/later'}] if (i // 400) % 2 == 0 else []
         virtual = True
     elif i % 200 == 7:
         cfg = Cfg(level=3, udf=True)
